@@ -9,9 +9,12 @@
 
 #include "asn1p_integer.h"
 
-#define ASN_INTEGER_MAX    \
-    (~((asn1c_integer_t)0) \
-     & ~((asn1c_integer_t)1 << (8 * sizeof(asn1c_integer_t) - 1)))
+/*
+ * 2^(bits-1)-1, computed without shifting a 1 into the sign bit
+ * (undefined behavior for a signed type).
+ */
+#define ASN_INTEGER_MAX \
+    (((((asn1c_integer_t)1 << (8 * sizeof(asn1c_integer_t) - 2)) - 1) * 2) + 1)
 #define ASN_INTEGER_MIN (-(ASN_INTEGER_MAX)-1)
 
 /*
